@@ -1,6 +1,8 @@
 """C15 — batching and accumulation accept exactly the all-valid batches (structural clauses)."""
 from ..core import norm, callee, walk, mir_callee, AnchorMissing, short
-from ..engines import mustcall as mc, reach, hirq, panics
+from ..engines import mustcall as mc, reach, hirq, panics, valflow
+from ..core import peel, pat_bindings
+import re
 from .. import tables
 
 BV = 'midnight_zk_stdlib::batch_verify'
@@ -17,12 +19,14 @@ def run(ck):
         'squeeze the member summary from the member transcript → absorb it into the batching transcript → assert_empty; '
         '(R2) the batching challenge is squeezed after all members were processed and every guard but the first is scaled and added; '
         '(R3) DualMSM::scale/add_msm act on both channels, the accumulators hash all inputs; '
-        '(R4) totality: every explicit panic site in the bodies of batch_verify / Guard::batch_verify is triaged. '
+        '(R4) totality: every explicit panic site in the bodies of batch_verify / Guard::batch_verify is triaged; '
+        '(R5) scaling discipline: in every scale / accumulate-with-r routine each scalar that is stored depends, by value, on the random factor. '
         'Does not decide the probabilistic "accepts iff all valid" statement.')
     r1_member(ck, w)
     r2_fold(ck, w)
     r3_channels(ck, w)
     r4_totality(ck, w)
+    r5_scaling(ck, w)
 
 
 def r1_member(ck, w):
@@ -176,3 +180,70 @@ def r4_totality(ck, w):
                     ck.bad('C15.R4', key, f'untriaged panic site in {nid}: {s["kind"]} {s["detail"]} — a batch API must answer with a Result',
                            reach.loc(b, s['term']))
     ck.count('panic sites inspected', total)
+
+
+SCALAR_T = re.compile(r'::F\b|::Fr\b|Scalar')
+POINT_T = re.compile(r'::C\b|::G1\b|G1Affine|Point|String|Label')
+MSMX = '<midnight_proofs::poly::kzg::msm::MSMKZG as midnight_proofs::utils::arithmetic::MSM<<E as pairing::Engine>::G1Affine>>::scale'
+C15_SCALED = [
+    # (function xid, random-factor parameter, mode)
+    ('midnight_circuits::verifier::msm::Msm::accumulate_with_r', 'r', 'stores', 3),
+    ('midnight_circuits::verifier::msm::AssignedMsm::scale', 'r', 'stores', 2),
+    (MSMX, 'factor', 'stores', 1),
+    ('midnight_proofs::poly::kzg::msm::DualMSM::scale', 'e', 'delegates', 2),
+    ('midnight_circuits::verifier::msm::AssignedMsm::accumulate_with_r', 'r', 'scale-then-add', 1),
+]
+
+
+def r5_scaling(ck, w):
+    ck.rule('C15.R5', 'scaling discipline of the random linear combination: in each scale / accumulate_with_r routine every SCALAR that is stored (assigned, '
+                      'pushed, inserted into a map — whichever branch) depends by value on the random factor; delegating routines hand the factor to every '
+                      'channel; the in-circuit accumulate scales `other` before adding it.  A contribution stored unscaled makes the combination differ from '
+                      'self + r*other for some key set.')
+    for xid, pn, mode, floor in C15_SCALED:
+        f = w.fn_x(xid, required=False)
+        if f is None:
+            ck.bad('C15.R5', f'{xid}:anchor', f'{xid} not found (anchor)')
+            continue
+        src = [(b['n'], b['i'], b.get('t')) for p in f['params'] for b in pat_bindings(p) if b['n'] == pn]
+        if not src:
+            ck.bad('C15.R5', f'{xid}:anchor:{pn}', f'{xid}: parameter `{pn}` not found (anchor)', hirq.fn_loc(f))
+            continue
+        vf = valflow.ValFlow(f, sources=src)
+        if mode == 'stores':
+            n = 0
+            for node, kind, val, deps in vf.store_sites():
+                t = peel(val).get('t') or val.get('t') or ''
+                if not SCALAR_T.search(t) or (POINT_T.search(t) and not SCALAR_T.search(t.split('<')[-1])):
+                    continue
+                n += 1
+                ck.record('C15.R5', f'{short(xid)}|store:{kind}#{n}', pn in deps, f'stored scalar depends on `{pn}`',
+                          f'{xid}: a scalar stored by `{kind}` (line {node.get("l")}) does not depend on the random factor `{pn}`: on that branch the contribution '
+                          f'of `other` enters the accumulator unscaled', hirq.fn_loc(f, node))
+            ck.floor('C15.R5', f'{short(xid)} scalar stores', n, floor)
+        elif mode == 'delegates':
+            calls = [(node, c, deps) for node, c, deps0 in vf.call_sites() if c.endswith('::scale') for deps in [all_deps(vf, node)]]
+            ck.floor('C15.R5', f'{short(xid)} scale delegations', len(calls), floor)
+            for i, (node, c, deps) in enumerate(calls):
+                ck.record('C15.R5', f'{short(xid)}|delegate#{i}', pn in deps, f'passes `{pn}` to {short(c)}',
+                          f'{xid}: the call of {c} (line {node.get("l")}) does not receive the factor `{pn}`', hirq.fn_loc(f, node))
+        elif mode == 'scale-then-add':
+            scales = [node for node, c, _ in vf.call_sites() if c.endswith('AssignedMsm::scale') and pn in all_deps(vf, node)]
+            adds = [node for node, c, _ in vf.call_sites() if c.endswith('AssignedMsm::add_msm')]
+            ok = False
+            why = 'no scale(.., r) / add_msm pair'
+            if scales and adds:
+                sroot = vf.root_local(scales[0]['recv']) if 'recv' in scales[0] else None
+                aroots = {y.get('i') for a in adds[0].get('args', []) for y in walk(a) if y.get('k') == 'local'}
+                ok = sroot is not None and sroot in aroots and scales[0].get('l', 0) < adds[0].get('l', 0)
+                why = 'the value handed to add_msm is not the one scaled by r beforehand'
+            ck.record('C15.R5', f'{short(xid)}|scale-then-add', ok, 'scales `other` by r, then adds that scaled value',
+                      f'{xid}: {why}', hirq.fn_loc(f))
+
+
+def all_deps(vf, node):
+    _, per_arg = vf.sites[id(node)]
+    d = frozenset()
+    for x in per_arg:
+        d |= x or frozenset()
+    return d
